@@ -363,7 +363,8 @@ func typeRoundTrip(c px.Context, t px.Type) core.Result {
 //	                   text format (Go durations, Go time stamps, merged version ranges, URI hashes), which the creator does not read
 //	lazy-type          Init, Like, Runtime: resolved lazily; printing may raise, parameters are normalised away
 //	nominal-type       Object, TypeSet, aliases, TypeReference: print as a name (or compare by identity)
-//	callable-block     a Callable whose block position holds something that is not a Callable
+//	callable-block     a Callable whose block position holds something that is not a Callable, or whose parameters hold
+//	                   Unit (dropped when printing) or start with a Tuple (read back as the whole parameter tuple)
 var exoticGroups = []struct {
 	class string
 	names []string
@@ -389,12 +390,24 @@ func typeClass(t px.Type, dflt string) string {
 				found["TypeAlias"] = true
 			}
 		case *types.CallableType:
+			// a Callable whose block position holds a non-Callable, or whose parameter list holds Unit (dropped when
+			// printing) or starts with a Tuple (read back as the whole parameter tuple)
 			if bt := x.BlockType(); bt != nil {
 				if o, ok := bt.(*types.OptionalType); ok {
 					bt = o.ContainedType()
 				}
 				if _, ok := bt.(*types.CallableType); !ok {
 					found["CallableBlock"] = true
+				}
+			}
+			if pt, ok := x.ParametersType().(*types.TupleType); ok {
+				for i, p := range pt.Types() {
+					if _, ok := p.(*types.UnitType); ok {
+						found["CallableBlock"] = true
+					}
+					if _, ok := p.(*types.TupleType); ok && i == 0 {
+						found["CallableBlock"] = true
+					}
 				}
 			}
 		case px.TypeSet:
@@ -801,24 +814,24 @@ func gen(g *core.G) {
 		}
 	}
 	// random types from the grammar of all core constructors
-	for i := 0; i < 6000*g.Scale; i++ {
+	for i := 0; i < 15000*g.Scale; i++ {
 		t := syn.GenTypeText(g.Rng, 1+g.Rng.Intn(3))
 		g.Emit("@rt-type " + hx(t) + " " + syn.OracleSexp(t))
 	}
 	// the modelled fragment: valid by construction, model and implementation compared (printed text and round trip verdict)
-	for i := 0; i < 8000*g.Scale; i++ {
+	for i := 0; i < 20000*g.Scale; i++ {
 		t := syn.GenFragType(g.Rng, 1+g.Rng.Intn(3))
 		g.Emit("rt-type " + hx(t) + " " + syn.OracleSexp(t))
 	}
 	// random literal values; inferred types of values
-	for i := 0; i < 6000*g.Scale; i++ {
+	for i := 0; i < 15000*g.Scale; i++ {
 		v := genVal(g.Rng, g.Rng.Intn(4), false)
 		g.Emit(valOp(c, v))
 		if i%3 == 0 {
 			g.Emit("@rt-typeof " + v)
 		}
 	}
-	for i := 0; i < 1500*g.Scale; i++ {
+	for i := 0; i < 4000*g.Scale; i++ {
 		s := syn.GenString(g.Rng) + syn.GenString(g.Rng)
 		g.Emit("rt-str " + hx(s))
 		g.Emit(rxOp(s))
